@@ -25,5 +25,5 @@ lines=['# Seeded changes × checks (quick tier, seed 0)','','Rows: independently
 for sid,row in res.items():
     if not isinstance(row,dict): lines.append(f'| {sid} | patch does not apply | |'); continue
     det=[c for c,v in row.items() if v['exit']==1]
-    lines.append(f"| {sid} | {', '.join(det) or 'none'} | {row.get(sid,{}).get('message','').replace('|','/')} |")
+    lines.append(f"| {sid} | {', '.join(det) or 'none'} | {row.get(sid.split('-')[0],{}).get('message','').replace('|','/')} |")
 open(f'{ROOT}/seeded/RESULTS.md','w').write('\n'.join(lines)+'\n')
